@@ -69,17 +69,33 @@ deriving Repr, DecidableEq
 
 /-! ### lookup -/
 
-def Dev.obj? (d : Dev) (c i : Nat) : Option Obj := d.objs.find? fun o => o.cls == c && o.ins == i
+def attrGet : List (Nat × Tag) → Nat → Option Tag
+  | [], _ => none
+  | (k, t) :: rest, a => if k = a then some t else attrGet rest a
 
-def Obj.attr? (o : Obj) (a : Nat) : Option Tag := (o.attrs.find? fun p => p.1 == a).map (·.2)
+/-- replace the (first) attribute with id `a` -/
+def attrSet : List (Nat × Tag) → Nat → Tag → List (Nat × Tag)
+  | [], _, _ => []
+  | (k, t0) :: rest, a, t => if k = a then (k, t) :: rest else (k, t0) :: attrSet rest a t
+
+def objGet : List Obj → Nat → Nat → Option Obj
+  | [], _, _ => none
+  | o :: rest, c, i => if o.cls = c ∧ o.ins = i then some o else objGet rest c i
+
+def objSet : List Obj → Nat → Nat → (Obj → Obj) → List Obj
+  | [], _, _, _ => []
+  | o :: rest, c, i, f => if o.cls = c ∧ o.ins = i then f o :: rest else o :: objSet rest c i f
+
+def Dev.obj? (d : Dev) (c i : Nat) : Option Obj := objGet d.objs c i
+
+def Obj.attr? (o : Obj) (a : Nat) : Option Tag := attrGet o.attrs a
 
 def Dev.attr? (d : Dev) (c i a : Nat) : Option Tag := (d.obj? c i).bind (·.attr? a)
 
-def Obj.setAttr (o : Obj) (a : Nat) (t : Tag) : Obj :=
-  { o with attrs := o.attrs.map fun p => if p.1 == a then (p.1, t) else p }
+def Obj.setAttr (o : Obj) (a : Nat) (t : Tag) : Obj := { o with attrs := attrSet o.attrs a t }
 
 def Dev.setAttr (d : Dev) (c i a : Nat) (t : Tag) : Dev :=
-  { d with objs := d.objs.map fun o => if o.cls == c && o.ins == i then o.setAttr a t else o }
+  { d with objs := objSet d.objs c i (·.setAttr a t) }
 
 /-- `str.lower()` on ISO-8859-1 text -/
 def lowerChar (c : Char) : Char :=
@@ -116,7 +132,7 @@ def resolveGo (syms : List (String × (Nat × Nat × Nat))) (mode : AttrMode) : 
   | term :: rest, r =>
     let done := r.c.isSome && r.i.isSome &&
       (r.a.isSome || mode == .no || (match mode with | .dflt _ => !isAttrSeg term | _ => false))
-    if done then some r
+    if done then (match term with | .symbolic _ => none | _ => some r)   -- only non-symbolic trailers are ignored
     else match term with
       | .cls n  => if r.c.isSome then none else resolveGo syms mode rest { r with c := some n }
       | .ins n  => if r.i.isSome then none else resolveGo syms mode rest { r with i := some n }
@@ -181,10 +197,11 @@ def replyElements (isRead : Bool) (index cnt elm siz off maxSize ndata : Nat) : 
   let beg := index + begadvance
   let endadv := if isRead then max ((offremains + maxSize + siz - 1) / siz) 1 else ndata
   let endmax := beg + endadv
-  if !isRead && !(endmax ≤ endactual) then none
-  else
-    let «end» := min endactual endmax
-    if beg < cnt ∧ elm ≤ cnt ∧ endactual ≤ cnt ∧ beg < «end» then some ⟨beg, «end», endactual, offremains⟩ else none
+  -- write: `assert endmax <= endactual`; then the three (now four) closing assertions
+  if (isRead = true ∨ endmax ≤ endactual) ∧ beg < cnt ∧ elm ≤ cnt ∧ endactual ≤ cnt
+      ∧ beg < min endactual endmax then
+    some ⟨beg, min endactual endmax, endactual, offremains⟩
+  else none
 
 /-- `Attribute._validate_key( slice( beg, end ))` -/
 def validSlice (len beg «end» : Nat) : Bool := beg < «end» && «end» ≤ len
@@ -218,42 +235,62 @@ def Tag.len (t : Tag) : Nat := if t.scalar then 1 else t.vals.length
 /-- bytes of a whole attribute (`Attribute.produce()`); `none` = struct.error -/
 def Tag.produce (t : Tag) : Option Bytes := (t.vals.mapM (Val.encode t.ty)).map List.flatten
 
+/-- resolve + lookup + "processed by wrong Object" + attribute exists (failure status 0x05) -/
+def resolveTag (d : Dev) (self : Nat × Nat) (p : Path) : Option (Nat × Nat × Nat × Tag) :=
+  match resolve d.symbols (.dflt 1) p with
+  | none => none
+  | some (c, i, a) =>
+    let a := a.getD 1
+    if (c, i) ≠ self then none else
+    match d.attr? c i a with
+    | none => none
+    | some tag => some (c, i, a, tag)
+
+/-- the values a write carries, converted to the tag's type: request type admissible for the tag
+(`allowed_tag_types`), data decodable in the request type, every value representable in the tag's
+type (failure status 0xFF / 0x2107) -/
+def convWrite (tag : Tag) (reqTy : Nat) (data : Bytes) : Option (List Val) :=
+  if !allowed tag.ty reqTy then none
+  else match CipType.ofCode reqTy with
+    | none => none
+    | some rt => (decodeVals rt data).bind fun vs => vs.mapM (Val.conv tag.ty)
+
+/-- what the slice access of a tag service does -/
+inductive Access
+  | refused                                  -- 0xFF / 0x2105
+  | read (status : Nat) (vals : List Val)    -- status 0 (complete) or 6 (more)
+  | wrote (tag : Tag)
+deriving Repr, DecidableEq
+
+/-- `reply_elements` + `_validate_key` + the slice read / slice assignment -/
+def tagAccess (tag : Tag) (maxBytes : Nat) (isRead : Bool) (index elements off : Nat)
+    (wvals : List Val) : Access :=
+  match replyElements isRead index tag.len elements tag.ty.size off maxBytes wvals.length with
+  | none => .refused
+  | some x =>
+    if !validSlice tag.len x.beg x.end then .refused else
+    if isRead then
+      if x.offremains ≠ 0 then .refused else
+      .read (if x.end = x.endactual then 0 else 6) ((tag.vals.drop x.beg).take (x.end - x.beg))
+    else
+      .wrote { tag with vals := if tag.scalar then wvals.take 1 else spliceAt tag.vals x.beg wvals }
+
 /-- The tag services of `Logix.request`, executed by the object `self` that owns the tag. -/
 def execTag (d : Dev) (self : Nat × Nat) (svc : Nat) (isRead isFrag : Bool) (p : Path)
     (reqTy : Nat) (elements offset : Nat) (data : Bytes) : Dev × Reply :=
-  -- data.status = 0x05, ext [0]: resolve, lookup, "processed by wrong Object", attribute exists
-  match resolve d.symbols (.dflt 1) p with
+  -- data.status = 0x05, ext [0]
+  match resolveTag d self p with
   | none => (d, errReply svc 5 [0])
-  | some (c, i, a) =>
-    let a := a.getD 1
-    if (c, i) ≠ self then (d, errReply svc 5 [0]) else
-    match d.attr? c i a with
-    | none => (d, errReply svc 5 [0])
-    | some tag =>
-      -- writes: data.status = 0xFF, ext [0x2107]: type admissible, every value representable
-      let wvals : Option (List Val) :=
-        if isRead then some []
-        else if !allowed tag.ty reqTy then none
-        else match CipType.ofCode reqTy with
-          | none => none
-          | some rt => (decodeVals rt data).bind fun vs => vs.mapM (Val.conv tag.ty)
-      match wvals with
-      | none => (d, errReply svc 255 [0x2107])
-      | some wvals =>
-        -- data.status = 0xFF, ext [0x2105]: reply_elements, the slice access
-        let index := resolveElement p
-        let off := if isFrag then offset else 0
-        match replyElements isRead index tag.len elements tag.ty.size off d.maxBytes wvals.length with
-        | none => (d, errReply svc 255 [0x2105])
-        | some x =>
-          if !validSlice tag.len x.beg x.end then (d, errReply svc 255 [0x2105]) else
-          if isRead then
-            if x.offremains ≠ 0 then (d, errReply svc 255 [0x2105]) else
-            let recs := (tag.vals.drop x.beg).take (x.end - x.beg)
-            (d, { svc := svc, status := if x.end = x.endactual then 0 else 6, ty := some tag.ty, vals := recs })
-          else
-            let vals' := if tag.scalar then wvals.take 1 else spliceAt tag.vals x.beg wvals
-            (d.setAttr c i a { tag with vals := vals' }, { svc := svc, status := 0 })
+  | some (c, i, a, tag) =>
+    -- writes: data.status = 0xFF, ext [0x2107]
+    match (if isRead then some [] else convWrite tag reqTy data) with
+    | none => (d, errReply svc 255 [0x2107])
+    | some wvals =>
+      -- data.status = 0xFF, ext [0x2105]
+      match tagAccess tag d.maxBytes isRead (resolveElement p) elements (if isFrag then offset else 0) wvals with
+      | .refused => (d, errReply svc 255 [0x2105])
+      | .read st vals => (d, { svc := svc, status := st, ty := some tag.ty, vals := vals })
+      | .wrote tag' => (d.setAttr c i a tag', { svc := svc, status := 0 })
 
 /-- Get Attributes All: attributes 1, 2, … while present -/
 def collectAll (o : Obj) : Nat → Nat → Bytes → Option Bytes
